@@ -121,6 +121,7 @@ func (rr *RdbReplay) Replay(e *rdb.BinEntry) (err error) {
 			params = append(params, e.Freq)
 		}
 	}
+	replacing := false
 RESTORE:
 	s, err := common.String(rr.Client.Do("restore", params...))
 	if err != nil {
@@ -134,6 +135,7 @@ RESTORE:
 					log.Infof("replace key: %s", e.Key)
 				}
 				params = append(params, "REPLACE")
+				replacing = true
 				goto RESTORE
 			case "ignore":
 				if rr.KeyExistsLog {
@@ -143,9 +145,22 @@ RESTORE:
 				return fmt.Errorf("output key exist, none : %s", e.Key)
 			}
 		} else if strings.Contains(err.Error(), "Bad data format") { // cluster.c:restoreCommand
+			// the target does not know this encoding: replay the value with native commands and give
+			// it what RESTORE would have given it - the old value removed under REPLACE, the expiry set
 			log.Warn(err, " try to restoreBigRdbEntry")
+			if replacing {
+				if _, err := common.Int64(rr.Client.Do("del", e.Key)); err != nil {
+					return fmt.Errorf("del exist key error : key(%s), error(%w)", e.Key, err)
+				}
+			}
 			if err := restoreBigRdbEntry(rr.Client, e); err != nil {
 				return err
+			}
+			if e.ExpireAt != 0 {
+				r, err := common.Int64(rr.Client.Do("pexpire", e.Key, ttlms))
+				if err != nil && r != 1 {
+					return fmt.Errorf("expire key error : key(%s), error(%w)", e.Key, err)
+				}
 			}
 		} else {
 			return fmt.Errorf("restore command error : key(%s), error(%w)", e.Key, err)
